@@ -16,6 +16,8 @@ import functools
 import io
 import itertools
 import operator
+import os
+import sys
 import re
 import hashlib
 
@@ -386,7 +388,7 @@ def seq_of(it, v):
     if S.is_term(v):
         t = v
         if it.branch(z3.Or(Py.is_list(t), Py.is_tuple(t), Py.is_nodelist(t))):
-            return S.seq_items(t)
+            return items_of(it, t)
         if it.branch(Py.is_dict(t)):
             return Py.keys(t)
         if it.branch(Py.is_str(t)):
@@ -395,19 +397,32 @@ def seq_of(it, v):
     return None
 
 
+def items_of(it, t):
+    """Item sequence of a term known to be a list, tuple or node list: the accessor of its kind when
+    the kind is known on this path (one canonical term), the three-way case split otherwise."""
+    st = z3.simplify(S.seq_items(t))
+    if z3.is_app(st) and st.decl().kind() == z3.Z3_OP_ITE:
+        for pred, acc in ((Py.is_list, Py.items), (Py.is_tuple, Py.titems), (Py.is_nodelist, Py.nitems)):
+            if _known(it, pred(t)):
+                return z3.simplify(acc(t))
+    return st
+
+
 def canon_item(it, item):
     """Structural text of a trace item, used to name abstract collections."""
     k = item[0]
     if k == "yield":
-        return "Y(" + z3.simplify(item[1]).sexpr() + ")"
+        return "Y(" + S.canon_text(item[1]) + ")"
     if k == "yieldfrom":
-        return "YF(" + z3.simplify(item[1]).sexpr() + ")"
+        return "YF(" + S.canon_text(item[1]) + ")"
     if k == "loop":
         _, spec, idx, alts = item
         body = []
         for a in alts:
             body.append(
-                "[" + ";".join(z3.simplify(c).sexpr() for c in a["pc"]) + "=>" + ",".join(canon_item(it, x) for x in a["trace"]) + "/" + str(a["exit"][0]) + "]"
+                # named by the branch conditions taken (facts assumed along the way are consequences of
+                # the library's axioms, and which of them get instantiated is incidental)
+                "[" + ";".join(sorted(S.canon_text(c) for c in a.get("decisions", a["pc"]))) + "=>" + ",".join(canon_item(it, x) for x in a["trace"]) + "/" + str(a["exit"][0]) + "]"
             )
         return "L(" + key_text(spec.key) + "," + str(idx) + "," + "|".join(sorted(body)) + ")"
     return str(item)
@@ -417,7 +432,7 @@ def key_text(key):
     out = []
     for x in key:
         if isinstance(x, z3.ExprRef):
-            out.append(z3.simplify(x).sexpr())
+            out.append(S.canon_text(x))
         elif isinstance(x, tuple):
             out.append("(" + key_text(x) + ")")
         else:
@@ -434,7 +449,31 @@ def collect_loop(it, item):
     _, spec, idx, alts = item
     txt = canon_item(it, item)
     h = hashlib.sha1(txt.encode()).hexdigest()[:12]
+    if os.environ.get("PYVC_DEBUG_FOLD"):
+        print(f"[collect {h}] {txt}", file=sys.stderr)
+    if (
+        spec.key[0] == "seq"
+        and isinstance(spec.key[1], z3.ExprRef)
+        and len(alts) == 1
+        and not alts[0].get("decisions", alts[0]["pc"])
+        and alts[0]["exit"][0] == "next"
+        and len(alts[0]["trace"]) == 1
+        and alts[0]["trace"][0][0] == "yield"
+        and z3.eq(z3.simplify(alts[0]["trace"][0][1]), z3.simplify(spec.key[1][idx]))
+    ):
+        return spec.key[1]  # `for x in s: yield x` is s
+    h = _same_collection(it, h, spec, idx, alts)
     c = z3.Const(f"collect!{h}", S.SeqPy)
+    # a filter (every path yields the loop's own element once, or nothing): elements of the domain
+    if spec.key[0] == "seq" and isinstance(spec.key[1], z3.ExprRef):
+        dom = spec.key[1]
+        only_own = all(
+            a["exit"][0] == "next" and (not a["trace"] or (len(a["trace"]) == 1 and a["trace"][0][0] == "yield" and z3.eq(z3.simplify(a["trace"][0][1]), z3.simplify(dom[idx]))))
+            for a in alts
+        )
+        if only_own:
+            for f in elem_facts_for(it, dom):
+                it.elem_facts = getattr(it, "elem_facts", []) + [(c, f)]
     # facts: unfiltered single-yield bodies have the domain's length and known elements
     if spec.length is not None and len(alts) == 1 and not alts[0]["pc"] and len(alts[0]["trace"]) == 1 and alts[0]["trace"][0][0] == "yield":
         it.assume(z3.Length(c) == spec.length)
@@ -442,6 +481,47 @@ def collect_loop(it, item):
         for j in list(it.index_terms):
             it.assume(z3.Implies(z3.And(j >= 0, j < spec.length), c[j] == z3.substitute(y, (idx, j))))
     return c
+
+
+COLLECT_REGISTRY = {}  # name -> (domain, index, per-element yields): the collections met while verifying one contract
+
+
+def _per_element(alts):
+    """What one iteration contributes, as a Seq term of the loop index (None: not expressible)."""
+    out = None
+    for a in reversed(alts):
+        if a["exit"][0] != "next" or any(x[0] != "yield" for x in a["trace"]):
+            return None
+        ys = [z3.Unit(x[1]) for x in a["trace"]]
+        val = S.EmptySeq if not ys else (z3.Concat(*ys) if len(ys) > 1 else ys[0])
+        dec = a.get("decisions", a["pc"])
+        out = val if out is None else z3.If(z3.And(*dec) if dec else z3.BoolVal(True), val, out)
+    return out
+
+
+def _same_collection(it, h, spec, idx, alts):
+    """The name of a collection already met that is provably the same one (equal domains, equal
+    contribution of every element) under what is known on this path - simplification is not canonical,
+    so the text alone does not decide this."""
+    if spec.key[0] != "seq" or not isinstance(spec.key[1], z3.ExprRef):
+        return h
+    per = _per_element(alts)
+    if per is None:
+        return h
+    if h in COLLECT_REGISTRY:
+        return h
+    for h0, (dom0, idx0, per0) in COLLECT_REGISTRY.items():
+        q = z3.Solver()
+        q.set("timeout", 3000)
+        for c in it.pc:
+            q.add(c)
+        q.add(spec.bound(idx))
+        q.add(z3.Not(z3.And(dom0 == spec.key[1], z3.substitute(per0, (idx0, idx)) == per)))
+        it.solver_calls += 1
+        if q.check() == z3.unsat:
+            return h0
+    COLLECT_REGISTRY[h] = (spec.key[1], idx, per)
+    return h
 
 
 def _list(it, a, k):
@@ -598,8 +678,45 @@ def range_iterspec(r):
     )
 
 
+def elem_facts_for(it, seqterm):
+    """The element predicates registered for this sequence term (contracts state them for their
+    symbolic inputs; the library derives them for filtered collections and fold accumulators)."""
+    st = z3.simplify(seqterm)
+    out = []
+    for q, f in getattr(it, "elem_facts", []):
+        if z3.eq(z3.simplify(q), st) and f not in out:
+            out.append(f)
+    return out
+
+
+def derives_elem_fact(it, seqterm, f):
+    """Syntactic derivation of `every element of seqterm satisfies f` from registered facts:
+    closed under concatenation, case split and (registered) filtered collections."""
+    st = z3.simplify(seqterm)
+    if f in elem_facts_for(it, st):
+        return True
+    for q, g in getattr(it, "elem_facts", []):
+        # the same sequence written differently (simplification is not canonical)
+        if g is f and q.sort() == st.sort() and not z3.eq(z3.simplify(q), st) and str(q.decl()) == str(st.decl()) and _known(it, q == st):
+            return True
+    if z3.is_app(st):
+        k = st.decl().kind()
+        if k == z3.Z3_OP_SEQ_CONCAT:
+            return all(derives_elem_fact(it, st.arg(i), f) for i in range(st.num_args()))
+        if k == z3.Z3_OP_ITE:
+            return derives_elem_fact(it, st.arg(1), f) and derives_elem_fact(it, st.arg(2), f)
+        if k == z3.Z3_OP_SEQ_EMPTY:
+            return True
+    if os.environ.get("PYVC_DEBUG_FOLD"):
+        print("[not derived]", str(st)[:400].replace("\n", " "), "| registered:", [str(z3.simplify(q))[:80].replace("\n", " ") for q, _ in getattr(it, "elem_facts", [])], file=sys.stderr)
+    return False
+
+
 def seq_iterspec(it, seqterm, key=None):
-    return IterSpec(key or ("seq", seqterm), lambda i: seqterm[i], lambda i: z3.And(i >= 0, i < z3.Length(seqterm)), z3.Length(seqterm))
+    extra = elem_facts_for(it, seqterm)
+    return IterSpec(
+        key or ("seq", seqterm), lambda i: seqterm[i], lambda i: z3.And(i >= 0, i < z3.Length(seqterm), *[f(seqterm[i]) for f in extra]), z3.Length(seqterm)
+    )
 
 
 MAX_UNROLL = 6
@@ -1128,7 +1245,7 @@ def contains(it, container, x):
             it.raise_(TypeError, "'in <string>' requires string as left operand")
         return z3.Contains(Py.s(c), Py.s(x))
     if it.branch(z3.Or(Py.is_list(c), Py.is_tuple(c), Py.is_nodelist(c))):
-        s = z3.simplify(S.seq_items(c))
+        s = items_of(it, c)
         n = concrete_len(s)
         if n is not None:
             return z3.Or(*[S.py_eq(z3.simplify(s[i]), x) for i in range(n)]) if n else z3.BoolVal(False)
@@ -1897,6 +2014,27 @@ def _tee(it, a, k):
     return [new_iterator(it, rest) for _ in range(nv.as_long())]
 
 
+def _chain(it, a, k):
+    """itertools.chain(*iterables): the items of each, in order.  Laziness is not modelled: generator
+    expressions among the operands are evaluated when the chain is consumed by seq_of (their cell
+    semantics is kept by LazyGen), other operands are item sequences already."""
+    parts = []
+    for x in a:
+        if isinstance(x, LazyGen):
+            x = run_genexp(it, x)
+        if isinstance(x, GenVal):
+            if x.pending_exc is not None:
+                raise Unsupported("chain() over a generator that raises")
+            parts.extend(x.items)
+            continue
+        sq = seq_of(it, x)
+        if sq is None:
+            raise Unsupported("chain() of this iterable")
+        parts.append(("yieldfrom", sq))
+    it.assumed.append("lib:itertools.chain (items of each operand in order)")
+    return GenVal(parts)
+
+
 def _filter(it, a, k):
     fn, src = a
     if not (isinstance(fn, Builtin) and fn.name == "bool"):
@@ -1951,6 +2089,7 @@ def _table():
             id(builtins.filter): Builtin("filter", _filter),
             id(itertools.islice): Builtin("islice", _islice),
             id(itertools.tee): Builtin("tee", _tee),
+            id(itertools.chain): Builtin("chain", _chain),
             id(collections.deque): Builtin("deque", _deque),
             id(builtins.min): Builtin("min", _minmax(True)),
             id(builtins.max): Builtin("max", _minmax(False)),
